@@ -62,6 +62,8 @@ type Node struct {
 	Recovered bool
 	LastHeight map[string]uint32 // last height served per chain
 	heightByTask map[string]uint32
+	lastQuery    map[string]time.Duration
+	ext          nodeExtra // extension fields (see node_ext.go)
 
 	// external services survive a crash of the peerswap process
 	BtcWallet    *SimBtcWallet
@@ -151,6 +153,11 @@ func (n *Node) op(site string) *Fault {
 // lightOp is a polling read: no scheduling point unless the plan asks for it.
 func (n *Node) lightOp(site string) *Fault {
 	n.checkAlive()
+	if strings.HasPrefix(site, "btc.rpc") {
+		n.noteQuery("btc")
+	} else if strings.HasPrefix(site, "lbtc.rpc") || strings.HasPrefix(site, "electrum.") {
+		n.noteQuery("lbtc")
+	}
 	if r := n.w.Plan.Scn.RpcParkRate; r > 0 {
 		n.mu.Lock()
 		n.lightSeq++
@@ -242,6 +249,10 @@ func (n *Node) boot() {
 	n.op("boot")
 	ctx, cancel := context.WithCancel(context.Background())
 	n.cancel = cancel
+	if scn.Component != "" {
+		n.bootComponent(ctx)
+		return
+	}
 	db, err := bbolt.Open(n.dbPath, 0o600, &bbolt.Options{NoSync: true, NoFreelistSync: true, Timeout: time.Second})
 	if err != nil {
 		fail("bbolt", err)
@@ -364,6 +375,9 @@ func (n *Node) boot() {
 	}
 	n.Recovered = true
 	w.Observe(&Obs{Node: n.ID, Inc: n.inc, Kind: "boot.done"})
+	if scn.PeerSync {
+		n.startPeersync(ctx, pol, ps)
+	}
 }
 
 // Crash kills the peerswap process of this node (scheduler context).
@@ -400,6 +414,7 @@ func (n *Node) closeFiles() {
 		n.db.Close()
 		n.db = nil
 	}
+	n.closePeersync()
 }
 
 // ---------------------------------------------------------------------------
@@ -419,6 +434,10 @@ func (n *Node) deliver(from int, typ int, payload []byte, idx int) {
 		return
 	}
 	w.Observe(&Obs{Node: n.ID, Inc: n.inc, Kind: "deliver", Msg: &MsgObs{From: from, To: n.ID, Type: typ, Payload: payload, Idx: idx, SwapID: swapIDOf(payload)}})
+	if typ == MsgPoll || typ == MsgRequestPoll {
+		n.deliverPeersync(from, typ, payload)
+		return
+	}
 	if n.Flavor == "lnd" {
 		// lnd's MessageListener handles custom messages one at a time
 		n.inbox = append(n.inbox, inMsg{from, typ, payload, idx})
